@@ -114,6 +114,13 @@ func c13Impls(thorough bool) []c13Impl {
 			return m, ""
 		}})
 	}
+	// a result set that breaks while it is fetched: the read may fail, but must not report "no such record"
+	impls = append(impls, c13Impl{name: "sql-mysql-fetch-errors", allowErrors: true, build: func() (ae.Metastore, string) {
+		eng := doubles.NewFakeSQL("mysql")
+		eng.FailFetch = true
+		c13Unsupported = func() []string { return eng.Unsupported }
+		return persistence.NewSQLMetastore(eng.Open(), persistence.WithSQLMetastoreDBType(persistence.MySQL)), ""
+	}})
 	// the deprecated constructors / options in pkg/persistence forward to the aws-v1 plugin: same contract
 	impls = append(impls, c13Impl{name: "dynamodb-deprecated-pkg-persistence-table=LegacyKeys-suffix=true", build: func() (ae.Metastore, string) {
 		fake := doubles.NewFakeDynamo("us-west-2", "LegacyKeys")
@@ -615,10 +622,28 @@ func c13DynSchedBody(ver string) explore.Body {
 				results[2] = append(results[2], res{"Store(c)", nil, fmt.Errorf("Store of a new key returned %v, %v", ok, err), nil})
 			}
 		})
+		kd := c13Key{"_IK_d_svc_prod", 1700000100}
+		vsched.GoNamed("storer2", func() {
+			ok, err := ms.Store(ctx, kd.id, kd.created, c13Variant(2, kd))
+			if !ok || err != nil {
+				results[2] = append(results[2], res{"Store(d)", nil, fmt.Errorf("Store of a new key returned %v, %v", ok, err), nil})
+			}
+		})
 		vsched.Quiesce()
 		if b := vsched.Blocked(); len(b) > 0 {
 			c.Failf("blocked", "threads blocked: %v", b)
 			return
+		}
+		for _, chk := range []struct {
+			k c13Key
+			v int
+		}{{kc, 0}, {kd, 2}} {
+			got, err := ms.Load(ctx, chk.k.id, chk.k.created)
+			if err != nil {
+				c.Failf("concurrent-store-lost", "Load(%s) after two concurrent Stores of different keys: %v", chk.k.id, err)
+			} else if d := c13Equal(got, c13Variant(chk.v, chk.k)); d != "" {
+				c.Failf("concurrent-store-lost", "two concurrent Stores of different keys both reported success but %s/%d is not stored as written: %s", chk.k.id, chk.k.created, d)
+			}
 		}
 		if len(fake.Unsupported) > 0 {
 			c.Failf("MACHINERY-GAP", "request outside the fake's grammar: %v", fake.Unsupported)
@@ -650,7 +675,7 @@ func c13DynSched(r *Report) {
 			continue
 		}
 		t0 := time.Now()
-		cfg := explore.Config{Name: "C13s/dynamodb-" + ver + "-2-readers-1-storer", Preemptions: 3, Deviations: 0, HBCache: false, Deadline: r.Deadline, MaxViolations: 5}
+		cfg := explore.Config{Name: "C13s/dynamodb-" + ver + "-2-readers-1-storer", Preemptions: 2, Deviations: 0, HBCache: false, Deadline: r.Deadline, MaxViolations: 5}
 		res := explore.Explore(cfg, c13DynSchedBody(ver))
 		seen := map[string]bool{}
 		var keep []explore.Violation
@@ -661,6 +686,6 @@ func c13DynSched(r *Report) {
 			}
 		}
 		res.Violations = keep
-		r.AddExplore(res, "preemptions <= 3 at the transport (requests are read when they are delivered)", time.Since(t0).Seconds())
+		r.AddExplore(res, "2 readers + 2 storers, preemptions <= 2 at the transport (requests are read when they are delivered)", time.Since(t0).Seconds())
 	}
 }
